@@ -768,6 +768,46 @@ fn ff_events<const P: u128>(name: &str, rng: &mut Rng, out: &mut Out, exhaustive
             let (ba, bb) = (rng.range(1, 127) as u32, rng.range(1, 127) as u32);
             pairs.push((sized(rng, ba), sized(rng, bb)));
         }
+        // operands with a sparse limb structure (a limb-wise / windowed product that treats a zero limb, byte or word specially only
+        // shows when a zero limb sits BELOW a non-zero one): limbs of 8 / 16 / 32 / 64 bits, each zero, one, all-ones or random
+        let sparse = |rng: &mut Rng| -> u128 {
+            let g = *rng.pick(&[8u32, 16, 32, 32, 64]);
+            let mut v: u128 = 0;
+            let mut any = false;
+            for j in 0..(128 / g) {
+                let limb: u128 = match rng.below(6) {
+                    0 | 1 | 2 => 0,
+                    3 => 1,
+                    4 => (1u128 << g) - 1,
+                    _ => (rng.next() as u128) & ((1u128 << g) - 1),
+                };
+                if limb != 0 && (limb << (g * j)) < P {
+                    v |= limb << (g * j);
+                    any = true;
+                }
+            }
+            if !any {
+                v = 1u128 << (g * rng.below(((128 - P.leading_zeros()) / g).max(1) as usize) as u32);
+            }
+            v % P
+        };
+        for i in 0..n_random.max(24) {
+            let a = sparse(rng);
+            let bits = rng.range(1, 127) as u32;
+            let b = if i % 3 == 0 { sparse(rng) } else { sized(rng, bits) };
+            pairs.push(if i % 2 == 0 { (a, b) } else { (b, a) });
+        }
+        let pbits0 = 128 - P.leading_zeros();
+        for sh in [8u32, 16, 32, 64, 96] {
+            if sh < pbits0 {
+                for k in [1u128, 2, 5, 255] {
+                    if (k << sh) < P {
+                        pairs.push((3, k << sh));
+                        pairs.push((k << sh, (1u128 << sh) + 5));
+                    }
+                }
+            }
+        }
         let pbits = 128 - P.leading_zeros();
         for ba in [1u32, 2, 31, 32, 33, 34, 63, 64, 65, pbits.saturating_sub(1).max(1), pbits] {
             for bb in [1u32, 32, 33, 64, 65, pbits.saturating_sub(1).max(1), pbits] {
